@@ -565,7 +565,7 @@ impl<'a> Socket<'a> {
                 };
 
                 // Check timeout
-                if timeout < cx.now() {
+                if timeout <= cx.now() {
                     // DNS timeout
                     pq.timeout_at = Some(cx.now() + RETRANSMIT_TIMEOUT);
                     pq.retransmit_at = Instant::ZERO;
@@ -661,7 +661,12 @@ impl<'a> Socket<'a> {
             .iter()
             .flatten()
             .filter_map(|q| match &q.state {
-                State::Pending(pq) => Some(PollAt::Time(pq.retransmit_at)),
+                // `dispatch` also acts when the per-server timeout runs out (it moves on
+                // to the next server, or fails the query), not only at `retransmit_at`.
+                State::Pending(pq) => Some(PollAt::Time(match pq.timeout_at {
+                    Some(timeout_at) => pq.retransmit_at.min(timeout_at),
+                    None => pq.retransmit_at,
+                })),
                 State::Completed(_) => None,
                 State::Failure => None,
             })
